@@ -193,6 +193,91 @@ func c07BuildMem(tier string) core.Source {
 	return core.FuncSource{N: len(cases), F: func(i int) core.Result { return c07Run(cases[i]) }}
 }
 
+// c07BuildHistories: one long-lived Server on which other requests have been
+// served before: a read-only module that shares its directory with a writable
+// one ("pub" and "upload" on one path) and read-only modules next to writable
+// ones. After legitimate uploads through the writable modules, every upload
+// addressed to a read-only module must still be refused and change nothing.
+func c07BuildHistories(tier string) core.Source {
+	drive.Quiet()
+	type cs struct {
+		masks  []int
+		target int
+		warm   int // 0: no earlier request, 1: an upload into the writable alias first, 2: two uploads and a download first
+	}
+	var cases []cs
+	masks := []int{0, 1, 1 | 1<<8, 2, 1 | 2 | 4 | 8 | 16, 1 << 5, 1 << 6, 1 << 7}
+	for t := range c07Targets {
+		for warm := 0; warm < 3; warm++ {
+			cases = append(cases, cs{masks, t, warm})
+		}
+	}
+	return core.FuncSource{N: len(cases), F: func(i int) core.Result {
+		c := cases[i]
+		res := core.Result{Case: fmt.Sprintf("one server, earlier requests=%d, then uploads addressed to read-only modules (target %q, %d flag sets); modules pub(ro)+upload(rw) share a directory", c.warm, c07Targets[c.target], len(c.masks))}
+		dir := workDir()
+		defer cleanup(dir)
+		shared, ro, rw := filepath.Join(dir, "shared"), filepath.Join(dir, "ro"), filepath.Join(dir, "rw")
+		for _, d := range []string{shared, ro, rw} {
+			c07ModuleTree().Materialise(d)
+		}
+		mods := []rsyncd.Module{{Name: "upload", Path: shared, Writable: true}, {Name: "mod", Path: shared}, {Name: "module", Path: rw, Writable: true}, {Name: "mo", Path: ro}}
+		srv, err := rsyncd.NewServer(mods, rsyncd.DontRestrict(), rsyncd.WithStderr(io.Discard), rsyncd.WithLogger(nullLogger{}))
+		if err != nil {
+			res.Inconcl = err.Error()
+			return res
+		}
+		session := func(module string, args []string, script *peer.SenderScript) (errLine string, scriptErr error) {
+			c2s, s2c := drive.NewPipe(false), drive.NewPipe(false)
+			done := make(chan struct{})
+			go func() {
+				defer close(done)
+				srv.HandleDaemonConn(context.Background(), rsyncd.NewConnection(c2s, s2c, "127.0.0.1:7"))
+				s2c.Close()
+			}()
+			script.BeforeGoodbye = func() { c2s.Close() }
+			_, errLine, scriptErr = peer.ScriptedDaemonClientSender(&drive.RW{Reader: s2c, Writer: c2s}, module, args, script, false)
+			c2s.Close()
+			<-done
+			return
+		}
+		for k := 0; k < c.warm; k++ {
+			for _, m := range []string{"upload", "module"} {
+				if _, e := session(m, []string{"--server", "-rt", ".", m + "/"}, c07Script(0)); e != nil {
+					res.Inconcl = fmt.Sprintf("harness: legitimate upload into %s failed: %v", m, e)
+					return res
+				}
+			}
+		}
+		for _, mask := range c.masks {
+			for _, module := range []string{"mod", "mo"} {
+				cc := c07Case{mask: mask, target: c.target}
+				args := append([]string{"--server"}, cc.flags()...)
+				target := strings.Replace(c07Targets[c.target], "mod", module, 1)
+				args = append(args, ".", target)
+				before, _ := tm.Snapshot(dir, false)
+				errLine, scriptErr := session(module, args, c07Script(0))
+				after, _ := tm.Snapshot(dir, false)
+				cnt(&res, "transitions", 1)
+				cnt(&res, "states", int64(len(before)))
+				cnt(&res, "traces_validated_against_impl", 1)
+				ff := []string{"part", "histories", "module", module, "warm", fmt.Sprint(c.warm)}
+				if d := tm.Diff(before, after, tm.Full); len(d) > 0 {
+					res.Fail = core.Fail("read_only_module_or_neighbour_modified", fmt.Sprintf("upload addressed to read-only module %q with %v after %d earlier requests: %s", module, args, c.warm, trunc(strings.Join(d, " ; "), 500)), ff...)
+					return res
+				}
+				if scriptErr == nil {
+					res.Fail = core.Fail("upload_to_read_only_module_not_refused", fmt.Sprintf("upload addressed to read-only module %q with %v after %d earlier requests was not refused (%q)", module, args, c.warm, errLine), ff...)
+					return res
+				}
+			}
+		}
+		res.Nontrivial = true
+		res.Outcome = fmt.Sprintf("refused/warm=%d", c.warm)
+		return res
+	}}
+}
+
 func c07BuildTransports(tier string) core.Source {
 	drive.Quiet()
 	var cases []c07Case
@@ -217,10 +302,11 @@ func init() {
 		ID:    "C07",
 		Level: "model_checking",
 		Rule: "mem: every subset of the receive-mode flag alphabet {-r,-l,-p,-t,-D,-c,-I,-n,--delete,-v} (1024; quick: all subsets of <=2 flags on every (target, module config), larger subsets on a third of them) x target forms {mod/, mod/sub/, mod/../x, mod, mod/sub/newdir/} x module configurations {one read-only directory module; read-only module between writable modules with prefix-related names (module, mod, mo); fs.FS-backed module}, uploaded by a scripted client speaking the daemon protocol with benign and hostile file lists; transports: the same over TCP (Server.Serve) and over stdin/stdout (maincmd.Main --server --daemon). " +
+			"histories: one long-lived Server with a read-only module sharing its directory with a writable one (and further read-only/writable neighbours); after 0, 1 or 2 rounds of legitimate uploads through the writable modules, uploads addressed to the read-only modules with 8 flag sets x 5 target forms must still be refused and change nothing. " +
 			"oracle: the full snapshot of the directory holding all modules is identical before/after, the client sees an error mentioning read only / @ERROR. states = entries compared, transitions = sessions",
 		Assum: []string{"fs.FS module is an os.DirFS over the read-only directory"},
 		Parts: func(tier string) []core.Part {
-			return []core.Part{{Name: "mem", Build: c07BuildMem}, {Name: "transports", Build: c07BuildTransports}}
+			return []core.Part{{Name: "mem", Build: c07BuildMem}, {Name: "histories", Build: c07BuildHistories}, {Name: "transports", Build: c07BuildTransports}}
 		},
 	})
 }
